@@ -65,10 +65,16 @@ def genProgAux (cfg : ProgCfg) : Nat → Nat → Rng → SpecSt → List Sym →
     let hl := st.hist.size
     let maxd := min hl cfg.dict
     if cfg.badAt = some i then
-      -- one ill-formed copy
+      -- one ill-formed copy: a match beyond history/dictionary, or a short rep / rep match whose
+      -- remembered distance is not (yet) inside the produced window
       let (r, k) := r.below 4
       let bad := if k = 0 then hl + 1 else if k = 1 then cfg.dict + 1 else if k = 2 then 0xFFFFFFFF else max (hl + 1) (cfg.dict + 1) + 7
-      let sym := Sym.mtch bad 2
+      let cands : List Sym := [Sym.mtch bad 2, Sym.mtch bad 273] ++
+        (if st.rep0 + 1 > maxd then [Sym.shortRep, Sym.shortRep, Sym.rep 0 2, Sym.rep 0 19] else []) ++
+        (if st.rep1 + 1 > maxd then [Sym.rep 1 3] else []) ++
+        (if st.rep2 + 1 > maxd then [Sym.rep 2 2] else []) ++
+        (if st.rep3 + 1 > maxd then [Sym.rep 3 273] else [])
+      let (r, sym) := r.pick cands
       (r, (sym :: acc).reverse)
     else
     let (r, k) := r.below 10
@@ -119,6 +125,16 @@ def symRepr : Sym → String
 def progRepr (p : List Sym) : String :=
   if p.length ≤ 24 then ",".intercalate (p.map symRepr) else s!"{p.length}syms"
 
+/-- output length after each symbol of a well-formed program -/
+def cumLens (dict : Nat) (prog : List Sym) : List Nat :=
+  (prog.foldl (init := (({} : SpecSt), ([] : List Nat))) fun (st, acc) sym =>
+    match SpecSt.step dict st sym with
+    | some (st', _) => (st', st'.hist.size :: acc)
+    | none => (st, st.hist.size :: acc)).2.reverse
+
+def cumRepr (dict : Nat) (prog : List Sym) : String :=
+  ",".intercalate ((cumLens dict prog).map toString)
+
 /-- all 225 property triples, cycled -/
 def propsOfIndex (i : Nat) : Props :=
   let i := i % 225
@@ -145,7 +161,7 @@ def genLzmaLine (seed idx : Nat) : String :=
   let payload := encodeSyms props dict prog
   let out := (expand dict prog).getD []
   s!"mat kind=lzma idx={idx} lc={props.lc} lp={props.lp} pb={props.pb} dict={dict} eos={if cfg.eos then 1 else 0} " ++
-    s!"nsyms={prog.length} kinds={symKinds prog} prog={progRepr prog} payload={hexOfBytes payload} out={hexOfBytes out}"
+    s!"nsyms={prog.length} kinds={symKinds prog} prog={progRepr prog} cum={cumRepr dict prog} payload={hexOfBytes payload} out={hexOfBytes out}"
 
 /-- long outputs that lap a 4096-byte dictionary many times -/
 def genLzmaWrapLine (seed idx : Nat) : String :=
@@ -292,12 +308,42 @@ def genLzma2Line (seed idx : Nat) : String :=
   s!"mat kind=lzma2 idx={idx} nchunks={cs.length} chunks={",".intercalate (cs.map chunkRepr)} " ++
     s!"payload={hexOfBytes bytes} out={hexOfBytes out}"
 
+/-- chunk sequences ending in a compressed chunk with an out-of-window copy (accumulating window):
+(a) a match beyond the history since the last dictionary reset, (b) a stale repeated distance used
+after a dictionary reset by an uncompressed chunk (no state reset in between) -/
+def genLzma2BadLine (seed idx : Nat) : String :=
+  let r : Rng := { s := UInt64.ofNat (seed * 1000003 + idx * 32452843 + 3) }
+  let (r, nk) := r.below 4
+  let n := match nk with
+    | 0 => 0 | 1 => 1 | 2 => 2 | _ => 4
+  let (r, cs) := genChunks n 0 r (EncSt.new { lc := 0, lp := 0, pb := 0 }) true []
+  let (r, flavour) := r.below 2
+  let (r, pk) := r.below 40
+  let props := lzma2Props pk
+  let (r, d) := r.pick [5, 17, 300]
+  let (r, k) := r.pick [1, 2, 4]
+  let (r, data) := randBytes k r []
+  let (r, lits) := randBytes (d + 3) r []
+  let (_, badsym) := r.pick [Sym.shortRep, Sym.rep 0 2, Sym.rep 0 40]
+  let tail : List Chunk :=
+    if flavour = 0 then
+      -- fresh dictionary, a few literals, then a match reaching before them
+      [.lzma 3 props ((lits.take 3).map Sym.lit ++ [Sym.mtch 4 2])]
+    else
+      -- establish rep0 = d - 1, reset only the dictionary with an uncompressed chunk, reuse rep0
+      [.lzma 3 props (lits.map Sym.lit ++ [Sym.mtch d 2]), .raw true data, .lzma 0 props [badsym]]
+  let all := cs ++ tail
+  let (bytes, out) := encode2 all
+  s!"mat kind=lzma2bad idx={idx} nchunks={all.length} chunks={",".intercalate (all.map chunkRepr)} " ++
+    s!"payload={hexOfBytes bytes} out={hexOfBytes out}"
+
 def generate (kind : String) (seed n : Nat) : List String :=
   (List.range n).map fun i =>
     if kind == "lzma" then genLzmaLine seed i
     else if kind == "lzmawrap" then genLzmaWrapLine seed i
     else if kind == "lzmabad" then genBadLine seed i
     else if kind == "lzma2" then genLzma2Line seed i
+    else if kind == "lzma2bad" then genLzma2BadLine seed i
     else "bad-kind"
 
 end Lzma.Gen
